@@ -5,6 +5,7 @@ import (
 	"errors"
 	"io"
 	"os"
+	"time"
 
 	"go.amzn.com/verifsim/simkernel"
 	"go.amzn.com/verifsim/simkernel/simsyscall"
@@ -24,6 +25,7 @@ type Cmd struct {
 	Stderr      io.Writer
 	SysProcAttr *simsyscall.SysProcAttr
 	Process     *Process
+	WaitDelay   time.Duration
 
 	proc   *simkernel.Proc
 	waited bool
@@ -37,7 +39,7 @@ func (c *Cmd) Start() error {
 	if c.Process != nil {
 		return errors.New("exec: already started")
 	}
-	p, err := simkernel.K.Spawn(c.Path, c.Args, c.Env, c.Dir, c.SysProcAttr != nil && c.SysProcAttr.Setpgid)
+	p, err := simkernel.K.Spawn(c.Path, c.Args, c.Env, c.Dir, c.SysProcAttr != nil && c.SysProcAttr.Setpgid, piped(c.Stdout) || piped(c.Stderr))
 	if err != nil {
 		return err
 	}
@@ -62,9 +64,29 @@ func (c *Cmd) Wait() error {
 		return errors.New("exec: Wait was already called")
 	}
 	c.waited = true
-	st := simkernel.K.Wait(c.proc)
+	st, delayed := simkernel.K.Wait(c.proc, int64(c.WaitDelay), func(ns int64) <-chan struct{} {
+		ch := make(chan struct{})
+		time.AfterFunc(time.Duration(ns), func() { close(ch) })
+		return ch
+	})
 	if st.Exited() && st.ExitStatus() == 0 {
+		if delayed {
+			return ErrWaitDelay
+		}
 		return nil
 	}
 	return &ExitError{status: st}
+}
+
+// ErrWaitDelay is returned by Wait if the process exits with a successful status code but its output pipes are
+// not closed before the command's WaitDelay expires.
+var ErrWaitDelay = errors.New("exec: WaitDelay expired before I/O complete")
+
+// piped reports whether os/exec would connect the writer through a pipe and a copying goroutine.
+func piped(w io.Writer) bool {
+	if w == nil {
+		return false
+	}
+	_, isFile := w.(*os.File)
+	return !isFile
 }
